@@ -508,3 +508,254 @@ Proof.
   - apply map_ext. intros e. rewrite U. reflexivity.
   - f_equal. apply lsum_ext. intros e _. apply U.
 Qed.
+
+(** * 4. Averages are traces with the density matrix on the full Fock space (C09, second half) *)
+
+Lemma lsum_restrict (F : nat -> R) (l ks : list nat) :
+  NoDup l -> NoDup ks -> incl ks l -> (forall b, In b l -> ~ In b ks -> F b = 0) ->
+  lsum F l = lsum F ks.
+Proof.
+  intros NDl. revert F. induction ks as [|k ks IH]; intros F NDk Hin Hz.
+  - cbn [lsum]. apply lsum_zero. intros b Hb. apply Hz; [exact Hb|intros []].
+  - inversion NDk as [|k' ks' Hnk NDks]; subst. cbn [lsum].
+    rewrite (lsum_ext F (fun b => (if Nat.eqb k b then F b else 0) + (if Nat.eqb k b then 0 else F b))).
+    2:{ intros b _. destruct (Nat.eqb k b); lra. }
+    rewrite lsum_plus, lsum_single; [|exact NDl|apply Hin; left; reflexivity]. f_equal.
+    rewrite (IH (fun b => if Nat.eqb k b then 0 else F b) NDks).
+    + apply lsum_ext. intros b Hb. destruct (Nat.eqb k b) eqn:E; [|reflexivity].
+      apply Nat.eqb_eq in E. subst b. contradiction.
+    + intros b Hb. apply Hin. right. exact Hb.
+    + intros b Hb Hnb. destruct (Nat.eqb k b) eqn:E; [reflexivity|]. apply Hz; [exact Hb|].
+      intros [->|Hb2]; [rewrite Nat.eqb_refl in E; discriminate|contradiction].
+Qed.
+
+Lemma index_of_None (x : nat) (l : list nat) : ~ In x l -> index_of x l = None.
+Proof.
+  induction l as [|y t IH]; intros Hn; [reflexivity|]. cbn [index_of].
+  destruct (Nat.eqb y x) eqn:E; [apply Nat.eqb_eq in E; subst; exfalso; apply Hn; left; reflexivity|].
+  rewrite IH; [reflexivity|]. intros Hx. apply Hn. right. exact Hx.
+Qed.
+
+Lemma index_of_nth_error (l : list nat) (i a : nat) :
+  NoDup l -> nth_error l i = Some a -> index_of a l = Some i.
+Proof.
+  revert i. induction l as [|y t IH]; intros i ND Hi; [destruct i; discriminate Hi|].
+  inversion ND as [|y' t' Hny NDt]; subst. cbn [index_of]. destruct i as [|i]; cbn [nth_error] in Hi.
+  - inversion Hi; subst. rewrite Nat.eqb_refl. reflexivity.
+  - destruct (Nat.eqb y a) eqn:E.
+    + apply Nat.eqb_eq in E. subst y. exfalso. apply Hny. eapply nth_error_In. exact Hi.
+    + rewrite (IH i NDt Hi). reflexivity.
+Qed.
+
+(** a sum over the full Fock space of a function supported on one block = the sum over the block *)
+Lemma lsum_fock_index (fock st : list nat) (G : nat -> nat -> R) :
+  NoDup fock -> NoDup st -> incl st fock ->
+  lsum (fun f => match index_of f st with Some fi => G f fi | None => 0 end) fock =
+  lsum (fun p => G (snd p) (fst p)) (enum st).
+Proof.
+  intros NDf NDs Hin.
+  rewrite (lsum_restrict _ fock st NDf NDs Hin).
+  2:{ intros b _ Hnb. rewrite (index_of_None b st Hnb). reflexivity. }
+  rewrite <- (lsum_enum_snd (fun f => match index_of f st with Some fi => G f fi | None => 0 end) st).
+  apply lsum_ext. intros [i a] Hia. cbn [fst snd]. destruct (in_enum st i a Hia) as [_ N].
+  rewrite (index_of_nth_error st i a NDs N). reflexivity.
+Qed.
+
+(** the nested accumulator loops of DensityMatrixPart are double sums *)
+Lemma fold_left_nested {A B} (g : A -> B -> R) (L : A -> list B) (l : list A) (x : R) :
+  fold_left (fun acc a => fold_left (fun acc' b => acc' + g a b) (L a) acc) l x =
+  x + lsum (fun a => lsum (g a) (L a)) l.
+Proof.
+  revert x. induction l as [|a t IH]; intros x; cbn [fold_left lsum]; [lra|].
+  rewrite IH, fold_left_lsum. lra.
+Qed.
+
+Lemma combine_col_enum (st : list nat) (vec : list (list R)) (s : nat) :
+  length vec = length st ->
+  combine st (col R 0 vec s) = map (fun p => (snd p, nth s (nth (fst p) vec []) 0)) (enum st).
+Proof.
+  revert vec. induction st as [|f t IH]; intros vec L; [reflexivity|].
+  destruct vec as [|row vec]; [discriminate L|]. rewrite enum_cons.
+  cbn [col map combine fst snd nth]. f_equal. rewrite map_map. cbn [fst snd nth].
+  apply IH. cbn in L. lia.
+Qed.
+
+Definition vcomp (hp : Rhpart) (fi s : nat) : R := nth s (nth fi (hp_vec R hp) []) 0.
+
+Lemma part_fock_average_sum (pre : R -> nat -> R) (hp : Rhpart) (dp : Rdmpart) :
+  length (hp_vec R hp) = length (hp_states R hp) ->
+  part_fock_average R 0 Rplus Rmult Rabs pre hp dp =
+  lsum (fun sw => lsum (fun p => pre (snd sw) (snd p) * (vcomp hp (fst p) (fst sw) * vcomp hp (fst p) (fst sw)))
+                       (enum (hp_states R hp)))
+       (enum (dp_weights R dp)).
+Proof.
+  intros L. unfold part_fock_average.
+  rewrite (fold_left_nested (fun sw fv => pre (snd sw) (fst fv) * Rabs (snd fv * snd fv))
+                            (fun sw => combine (hp_states R hp) (col R 0 (hp_vec R hp) (fst sw)))).
+  rewrite Rplus_0_l. apply lsum_ext. intros sw _. rewrite (combine_col_enum _ _ _ L), lsum_map.
+  apply lsum_ext. intros p _. cbn [fst snd]. unfold vcomp.
+  rewrite Rabs_pos_eq; [reflexivity|]. apply Rle_0_sqr.
+Qed.
+
+Lemma dm_sum_parts_sum (f : Rhpart -> Rdmpart -> R) (H : list Rhpart) (D : list Rdmpart) :
+  dm_sum_parts R 0 Rplus f H D = lsum (fun hd => f (fst hd) (snd hd)) (combine H D).
+Proof. unfold dm_sum_parts. rewrite (fold_left_lsum (fun hd => f (fst hd) (snd hd))). lra. Qed.
+
+Lemma in_combine_H {A B} (l1 : list A) (l2 : list B) (p : A * B) : In p (combine l1 l2) -> In (fst p) l1 /\ In (snd p) l2.
+Proof. destruct p as [a b]. intros Hp. split; [eapply in_combine_l|eapply in_combine_r]; exact Hp. Qed.
+
+Section Traces.
+Variable fock : list nat.
+Variable H : list Rhpart.
+Variable D : list Rdmpart.
+Hypothesis fock_nodup : NoDup fock.                                       (* the Fock states are listed once *)
+Hypothesis blocks_wf : forall hp, In hp H -> wf_hpart hp.                  (* sizes agree, states of a block distinct *)
+Hypothesis blocks_in_fock : forall hp, In hp H -> incl (hp_states R hp) fock.
+
+(** Sum over the full space of a quantity built from the components of one eigenvector *)
+Lemma lsum_fock_comp (hp : Rhpart) (s : nat) (G : nat -> R -> R) :
+  In hp H -> (forall f, G f 0 = 0) ->
+  lsum (fun f => G f (comp hp s f)) fock = lsum (fun p => G (snd p) (vcomp hp (fst p) s)) (enum (hp_states R hp)).
+Proof.
+  intros Hhp G0. destruct (blocks_wf hp Hhp) as [_ [_ [_ ND]]].
+  rewrite <- (lsum_fock_index fock (hp_states R hp) (fun f fi => G f (vcomp hp fi s)) fock_nodup ND (blocks_in_fock hp Hhp)).
+  apply lsum_ext. intros f _. unfold comp. destruct (index_of f (hp_states R hp)); [reflexivity|apply G0].
+Qed.
+
+(** Tr(rho O) = Sum_n w_n <n|O|n>: the trace in the Fock basis equals the eigenbasis form (what
+    EDSpec.trace_rho evaluates on the rotated operator). Pure exchange of finite sums. *)
+Lemma trace_eigen_form (O : nat -> nat -> R) :
+  trace_rho_op fock H D O = sum_states H D (expect fock O).
+Proof.
+  unfold trace_rho_op, rho, sum_states, expect.
+  (* distribute the factor O g f into the sums over states *)
+  rewrite (lsum_ext _ (fun f => lsum (fun g => lsum (fun hd => lsum (fun sw =>
+             snd sw * (comp (fst hd) (fst sw) f * comp (fst hd) (fst sw) g) * O g f)
+             (enum (dp_weights R (snd hd)))) (combine H D)) fock)).
+  2:{ intros f _. apply lsum_ext. intros g _. rewrite <- lsum_scal_r. apply lsum_ext. intros hd _.
+      rewrite <- lsum_scal_r. reflexivity. }
+  (* bring the sum over blocks to the front *)
+  rewrite (lsum_ext _ (fun f => lsum (fun hd => lsum (fun g => lsum (fun sw =>
+             snd sw * (comp (fst hd) (fst sw) f * comp (fst hd) (fst sw) g) * O g f)
+             (enum (dp_weights R (snd hd)))) fock) (combine H D))).
+  2:{ intros f _. apply lsum_swap. }
+  rewrite lsum_swap. apply lsum_ext. intros hd _.
+  (* bring the sum over the states of the block to the front *)
+  rewrite (lsum_ext _ (fun f => lsum (fun sw => lsum (fun g =>
+             snd sw * (comp (fst hd) (fst sw) f * comp (fst hd) (fst sw) g) * O g f) fock)
+             (enum (dp_weights R (snd hd))))).
+  2:{ intros f _. apply lsum_swap. }
+  rewrite lsum_swap. apply lsum_ext. intros sw _.
+  rewrite <- lsum_scal.
+  (* Sum_f Sum_g U_f U_g O_gf = Sum_f Sum_g U_f O_fg U_g: rename the summation variables *)
+  rewrite (lsum_swap (fun f g => snd sw * (comp (fst hd) (fst sw) f * comp (fst hd) (fst sw) g) * O g f)).
+  apply lsum_ext. intros f _. rewrite <- lsum_scal. apply lsum_ext. intros g _. ring.
+Qed.
+
+(** For an operator that is diagonal in the Fock basis, with eigenvalue d(f) on |f> *)
+Lemma expect_diag (d : nat -> R) (hp : Rhpart) (s : nat) :
+  In hp H ->
+  expect fock (diag_op d) hp s = lsum (fun p => d (snd p) * (vcomp hp (fst p) s * vcomp hp (fst p) s)) (enum (hp_states R hp)).
+Proof.
+  intros Hhp. unfold expect, diag_op.
+  rewrite (lsum_ext _ (fun f => d f * (comp hp s f * comp hp s f))).
+  2:{ intros f Hf. rewrite (lsum_ext _ (fun g => if Nat.eqb f g then comp hp s f * d f * comp hp s g else 0)).
+      - rewrite (lsum_single (fun g => comp hp s f * d f * comp hp s g) fock f fock_nodup Hf). ring.
+      - intros g _. destruct (Nat.eqb f g); ring. }
+  apply (lsum_fock_comp hp s (fun f v => d f * (v * v)) Hhp). intros f. ring.
+Qed.
+
+(** General form of getAverageOccupancy / getAverageDoubleOccupancy: a weighted sum over eigenvector
+    components squared times a function of the Fock state is the trace of rho with the diagonal operator. *)
+Theorem fock_average_is_trace (pre : R -> nat -> R) (d : nat -> R) :
+  (forall w f, pre w f = w * d f) ->
+  dm_sum_parts R 0 Rplus (part_fock_average R 0 Rplus Rmult Rabs pre) H D = trace_rho_op fock H D (diag_op d).
+Proof.
+  intros Hpre. rewrite trace_eigen_form, dm_sum_parts_sum. unfold sum_states.
+  apply lsum_ext. intros [hp dp] Hhd. cbn [fst snd]. destruct (in_combine_H _ _ _ Hhd) as [Hhp _]. cbn [fst] in Hhp.
+  destruct (blocks_wf hp Hhp) as [L1 [L2 _]].
+  rewrite part_fock_average_sum by congruence.
+  apply lsum_ext. intros sw _. rewrite (expect_diag d hp (fst sw) Hhp), <- lsum_scal.
+  apply lsum_ext. intros p _. rewrite Hpre. ring.
+Qed.
+
+(** per-index occupancy <n_i> = Tr(rho n_i): |v_fi|^2 and test(i) of the Fock state *)
+Theorem occupancy_is_trace (M i : nat) :
+  (i < M)%nat -> Rdm_average_occupancy_i M i H D = Done (trace_rho_op fock H D (op_n i)).
+Proof.
+  intros Hi. unfold Rdm_average_occupancy_i, dm_average_occupancy_i.
+  apply Nat.ltb_lt in Hi. rewrite Hi. f_equal. unfold part_average_occupancy_i.
+  apply (fock_average_is_trace _ (fun f => b2r (Nat.testbit f i))).
+  intros w f. unfold b2k, b2r. destruct (Nat.testbit f i); cbn [INR]; ring.
+Qed.
+
+(** total occupancy <N> = Tr(rho N), N = Sum_i n_i counts the occupied modes *)
+Theorem total_occupancy_is_trace (M : nat) :
+  Rdm_average_occupancy M H D = trace_rho_op fock H D (op_N M).
+Proof.
+  unfold Rdm_average_occupancy, dm_average_occupancy, part_average_occupancy.
+  apply (fock_average_is_trace _ (fun f => INR (popcount M f))). intros w f. ring.
+Qed.
+
+(** double occupancy <n_i n_j> = Tr(rho n_i n_j) *)
+Theorem double_occ_is_trace (M i j : nat) :
+  (i < M)%nat -> (j < M)%nat ->
+  Rdm_average_double_occupancy M i j H D = Done (trace_rho_op fock H D (op_nn i j)).
+Proof.
+  intros Hi Hj. unfold Rdm_average_double_occupancy, dm_average_double_occupancy.
+  apply Nat.ltb_lt in Hi. apply Nat.ltb_lt in Hj. rewrite Hi, Hj. cbn [andb]. f_equal.
+  unfold part_average_double_occupancy.
+  apply (fock_average_is_trace _ (fun f => b2r (Nat.testbit f i) * b2r (Nat.testbit f j))).
+  intros w f. unfold b2k, b2r. destruct (Nat.testbit f i), (Nat.testbit f j); cbn [INR]; ring.
+Qed.
+
+(** the number operator counts: popcount over M modes is the sum of the bits (so <N> = Sum_i <n_i>) *)
+Lemma popcount_fuel_bits (M f : nat) :
+  INR (popcount_fuel M f) = lsum (fun i => b2r (Nat.testbit f i)) (seq 0 M).
+Proof.
+  revert f. induction M as [|M IH]; intros f; [reflexivity|].
+  cbn [popcount_fuel seq lsum]. rewrite plus_INR, IH, <- seq_shift, lsum_map.
+  f_equal.
+  - cbn [Nat.testbit]. unfold b2r. destruct (Nat.odd f); reflexivity.
+  - apply lsum_ext. intros i _. cbn [Nat.testbit]. reflexivity.
+Qed.
+
+(** ** Average energy *)
+
+Lemma lsum_combine_enum (w e : list R) :
+  lsum (fun we => fst we * snd we) (combine w e) = lsum (fun sw => snd sw * nth (fst sw) e 0) (enum w).
+Proof.
+  revert e. induction w as [|x w IH]; intros e; [reflexivity|]. rewrite enum_cons.
+  destruct e as [|y e].
+  - cbn [combine lsum fst snd nth]. rewrite lsum_map. cbn [fst snd].
+    rewrite lsum_zero; [lra|]. intros [i a] _. cbn [fst snd]. destruct i; cbn; lra.
+  - cbn [combine lsum fst snd nth]. rewrite lsum_map. cbn [fst snd nth]. rewrite IH. reflexivity.
+Qed.
+
+(** Average energy = Tr(rho Hm) for ANY matrix Hm on the Fock space of which the assembled eigenvectors are
+    normalised eigenvectors with the stored eigenvalues (the certificate CERT that every run checks:
+    residual_HU = 0 and the diagonal of residual_unitary = 0). *)
+Theorem avg_energy_is_trace (Hm : nat -> nat -> R) :
+  (* eigen_equation *)
+  (forall hp s f, In hp H -> (s < hp_size R hp)%nat -> In f fock ->
+     lsum (fun g => Hm f g * comp hp s g) fock = nth s (hp_eig R hp) 0 * comp hp s f) ->
+  (* eigenvectors_normalised *)
+  (forall hp s, In hp H -> (s < hp_size R hp)%nat -> lsum (fun f => comp hp s f * comp hp s f) fock = 1) ->
+  (* weights_sized *)
+  (forall hd, In hd (combine H D) -> length (dp_weights R (snd hd)) = hp_size R (fst hd)) ->
+  Rdm_average_energy H D = trace_rho_op fock H D Hm.
+Proof.
+  intros Heig Hnorm Hsz. rewrite trace_eigen_form. unfold Rdm_average_energy, dm_average_energy.
+  rewrite dm_sum_parts_sum. unfold sum_states. apply lsum_ext. intros [hp dp] Hhd. cbn [fst snd].
+  destruct (in_combine_H _ _ _ Hhd) as [Hhp _]. cbn [fst] in Hhp.
+  unfold part_average_energy. rewrite (fold_left_lsum (fun we => fst we * snd we)), Rplus_0_l, lsum_combine_enum.
+  apply lsum_ext. intros [s w] Hsw. cbn [fst snd]. f_equal.
+  destruct (in_enum _ _ _ Hsw) as [Ls _]. specialize (Hsz (hp, dp) Hhd). cbn [fst snd] in Hsz. rewrite Hsz in Ls.
+  unfold expect.
+  rewrite (lsum_ext _ (fun f => nth s (hp_eig R hp) 0 * (comp hp s f * comp hp s f))).
+  - rewrite lsum_scal, (Hnorm hp s Hhp Ls). ring.
+  - intros f Hf. rewrite (lsum_ext _ (fun g => comp hp s f * (Hm f g * comp hp s g))) by (intros; ring).
+    rewrite lsum_scal, (Heig hp s f Hhp Ls Hf). ring.
+Qed.
+
+End Traces.
